@@ -7,6 +7,7 @@
 //! trusted: R15 (deep slice): OutboundPayments::fail_htlc decodes the onion failure and works on a HashMap entry under a mutex; the unit extracts the whole per-payment block of the Occupied arm verbatim as a function of the payment (checked against the proved contracts of remove / is_fulfilled / mark_abandoned above); `payment.get()/get_mut()` become the reference itself, `payment.remove()` sets a flag, `return;` returns None (R5); is_auto_retryable_now / insert_previously_failed_* are external_body (retry strategy opaque; frame assumed); Event reduced to PaymentFailed; the path events built afterwards are dropped and not claimed
 //! trusted: R15 (deep slice): OutboundPayments::claim_htlc: the whole per-payment block of the Occupied arm verbatim as a function of the payment and the event queue (a Vec here; push_back -> push); Sha256::hash(..).to_byte_array() is the external_body wrapper sha256 (R8); Event reduced to the three variants used
 //! trusted: R15 (deep slice): OutboundPayments::abandon_payment: the per-payment block verbatim (same conventions as fail_htlc / claim_htlc)
+//! trusted: R15 (slices): pay_route_internal: the loop that classifies the per-path send results (R6: `for (res, path) in results.iter().zip(route.paths.iter())` becomes an index loop over the shorter length; body verbatim) and the expression giving the retry amount; sending the paths and building the error value are dropped and not claimed; APIError reduced to three variants
 //! assume: fail_htlc: a failure attributed to a blinded path carries no short_channel_id and the failed path has a blinded tail (debug_asserts on decode_onion_failure's result)
 //! assume: callers keep the representation invariant pending_amt_msat >= value of every in-flight path (and pending_fee_msat >= its fee); remove()/insert() are not called on pre-HTLC states (LDK's debug_assert!(false) arms)
 use vstd::prelude::*;
@@ -404,6 +405,87 @@ impl PendingOutboundPayment {
     if payment.get().remaining_parts() == 0 {
 //@with
     if true {
+//@end
+
+// ---- a partially failed multi-path send: what is already in flight is never sent again (R15 slice of OutboundPayments::pay_route_internal) ----
+pub enum APIError { MonitorUpdateInProgress, ChannelUnavailable, Other }
+pub struct RetryParams { pub final_value_msat: u64 }
+pub open spec fn in_flight(r: Result<(), APIError>) -> bool { r is Ok || (r is Err && r->Err_0 is MonitorUpdateInProgress) }
+pub open spec fn sent_value(rs: Seq<Result<(), APIError>>, ps: Seq<Path>) -> int decreases rs.len() {
+    if rs.len() == 0 || ps.len() == 0 { 0 } else { sent_value(rs.drop_last(), ps.drop_last()) + (if in_flight(rs.last()) { ps.last().v as int } else { 0 }) }
+}
+pub open spec fn sent_fees(rs: Seq<Result<(), APIError>>, ps: Seq<Path>) -> int decreases rs.len() {
+    if rs.len() == 0 || ps.len() == 0 { 0 } else { sent_fees(rs.drop_last(), ps.drop_last()) + (if in_flight(rs.last()) { ps.last().f as int } else { 0 }) }
+}
+//@extract lightning/src/ln/outbound_payment.rs :: impl OutboundPayments :: fn pay_route_internal
+//@slice R15
+    let mut has_ok = false; let mut has_err = false; let mut has_unsent = false; let mut total_ok_fees_msat = 0; let mut total_ok_amt_sent_msat = 0; for (res, path) in results.iter().zip(route.paths.iter()) { $body:any } if has_err && has_ok {
+//@with
+    fn classify_send_results(results: &Vec<Result<(), APIError>>, paths: &Vec<Path>) -> (bool, bool, bool, u64, u64) {
+        let mut has_ok = false; let mut has_err = false; let mut has_unsent = false;
+        let mut total_ok_fees_msat: u64 = 0; let mut total_ok_amt_sent_msat: u64 = 0;
+        let mut __i: usize = 0;   // R6: for (res, path) in results.iter().zip(route.paths.iter())
+        while __i < results.len() && __i < paths.len()
+            invariant __i <= results@.len(), __i <= paths@.len(), results@.len() == paths@.len(),
+                sent_value(results@, paths@) <= u64::MAX, sent_fees(results@, paths@) <= u64::MAX,
+                total_ok_amt_sent_msat as int == sent_value(results@.take(__i as int), paths@.take(__i as int)),
+                total_ok_fees_msat as int == sent_fees(results@.take(__i as int), paths@.take(__i as int)),
+                has_unsent <==> exists|k: int| 0 <= k < __i && !in_flight(#[trigger] results@[k]),
+                has_ok <==> exists|k: int| 0 <= k < __i && in_flight(#[trigger] results@[k]),
+                has_err <==> exists|k: int| 0 <= k < __i && (#[trigger] results@[k]) is Err,
+            decreases results@.len() - __i
+        {
+            proof { lemma_sent_step(results@, paths@, __i as int); lemma_sent_mono(results@, paths@, __i as int + 1); }
+            let res = &results[__i]; let path = &paths[__i];
+            __i = __i + 1;
+            $body
+        }
+        proof { assert(results@.take(results@.len() as int) =~= results@); assert(paths@.take(paths@.len() as int) =~= paths@); }
+        (has_ok, has_err, has_unsent, total_ok_fees_msat, total_ok_amt_sent_msat)
+    }
+//@rw R16
+    if let &Err(APIError::MonitorUpdateInProgress) = res
+//@with
+    if let Err(APIError::MonitorUpdateInProgress) = res
+//@ret r
+//@requires
+    results@.len() == paths@.len(), sent_value(results@, paths@) <= u64::MAX, sent_fees(results@, paths@) <= u64::MAX,
+//@ensures P C03 the-amount-and-fee-counted-as-sent-are-exactly-those-of-the-parts-in-flight-including-parts-behind-a-pending-monitor-update-so-a-retry-never-resends-them
+    r.4 as int == sent_value(results@, paths@), r.3 as int == sent_fees(results@, paths@),
+    r.2 <==> exists|k: int| 0 <= k < results@.len() && !in_flight(#[trigger] results@[k]),
+    r.0 <==> exists|k: int| 0 <= k < results@.len() && in_flight(#[trigger] results@[k]),
+    r.1 <==> exists|k: int| 0 <= k < results@.len() && (#[trigger] results@[k]) is Err,
+//@mutant part_behind_a_pending_monitor_update_not_counted_as_sent
+    has_ok = true; total_ok_fees_msat += path.fee_msat(); total_ok_amt_sent_msat += path.final_value_msat(); } else if res.is_err() {
+//@with
+    has_ok = true; total_ok_fees_msat += path.fee_msat(); } else if res.is_err() {
+//@end
+pub proof fn lemma_sent_step(rs: Seq<Result<(), APIError>>, ps: Seq<Path>, i: int)
+    requires 0 <= i < rs.len(), rs.len() == ps.len()
+    ensures sent_value(rs.take(i + 1), ps.take(i + 1)) == sent_value(rs.take(i), ps.take(i)) + (if in_flight(rs[i]) { ps[i].v as int } else { 0 }),
+            sent_fees(rs.take(i + 1), ps.take(i + 1)) == sent_fees(rs.take(i), ps.take(i)) + (if in_flight(rs[i]) { ps[i].f as int } else { 0 }),
+{ assert(rs.take(i + 1).drop_last() =~= rs.take(i)); assert(ps.take(i + 1).drop_last() =~= ps.take(i)); }
+pub proof fn lemma_sent_mono(rs: Seq<Result<(), APIError>>, ps: Seq<Path>, i: int)
+    requires 0 <= i <= rs.len(), rs.len() == ps.len()
+    ensures 0 <= sent_value(rs.take(i), ps.take(i)) <= sent_value(rs, ps), 0 <= sent_fees(rs.take(i), ps.take(i)) <= sent_fees(rs, ps)
+    decreases rs.len() - i
+{
+    if i < rs.len() { lemma_sent_mono(rs, ps, i + 1); lemma_sent_step(rs, ps, i); lemma_sent_nonneg(rs.take(i), ps.take(i)); }
+    else { assert(rs.take(i) =~= rs); assert(ps.take(i) =~= ps); lemma_sent_nonneg(rs, ps); }
+}
+pub proof fn lemma_sent_nonneg(rs: Seq<Result<(), APIError>>, ps: Seq<Path>)
+    ensures sent_value(rs, ps) >= 0, sent_fees(rs, ps) >= 0 decreases rs.len()
+{ if rs.len() > 0 && ps.len() > 0 { lemma_sent_nonneg(rs.drop_last(), ps.drop_last()); } }
+
+// the amount a retry is asked to deliver
+//@extract lightning/src/ln/outbound_payment.rs :: impl OutboundPayments :: fn pay_route_internal
+//@slice R15
+    route_params.final_value_msat = $e; Some(route_params)
+//@with
+    fn retry_amount(route_params: &RetryParams, total_ok_amt_sent_msat: u64) -> u64 { $e }
+//@ret r
+//@ensures P C03 a-retry-asks-only-for-the-part-of-the-amount-that-is-not-already-in-flight
+    r as int == (if route_params.final_value_msat >= total_ok_amt_sent_msat { route_params.final_value_msat - total_ok_amt_sent_msat } else { 0 }),
 //@end
 }
 fn main() {}
